@@ -313,7 +313,6 @@ package syncer
 //@   set unqueued = ite(txnStatus == txnStatusBegin || txnStatus == txnStatusCommit, 0, unqueued) after store txnStatus
 //@   set unqueued = 0 after store cmdQueue
 //@   assert after store cmdQueue: received_command_is_appended_at_the_end [C01]: unqueued == 1 ==> len(cmdQueue) >= 1 && cmdQueue[len(cmdQueue) - 1].Cmd == rcvCmd && cmdQueue[len(cmdQueue) - 1].Offset == rcvOff && cmdQueue[len(cmdQueue) - 1].Db == rcvDb
-//@   assert after store lastDb: the_database_of_the_last_command_taken_is_remembered [C01]: rcvDb >= 0 ==> lastDb == rcvDb
 //@   assert at call sendFunc: a_transactional_batch_always_moves_the_resume_position [C01]: transactionBatch ==> shouldUpdateCP
 //@   assert at call sendFunc: cp_absorbed [C02 C09]: shouldUpdateCP ==> pending == 0 - 1 || lastOffset < pending || txnStatus == txnStatusCommit
 //@   assert at call sendFunc: txn_whole [C09]: !inTransaction || txnStatus == txnStatusCommit
@@ -327,6 +326,7 @@ package syncer
 //@     invariant an_open_source_transaction_suppresses_every_other_flush: transactionMode && (txnStatus == txnStatusBegin || txnStatus == txnStatusIn) ==> inTransaction
 //@     invariant queue: queueClean(cmdQueue)
 //@     invariant every_received_command_was_queued_or_is_a_documented_removal: unqueued == 0
+//@     invariant the_database_of_the_last_command_taken_is_remembered: rcvDb >= 0 ==> lastDb == rcvDb
 
 // ---- snapshot replay workers (C04) ---------------------------------------------------------
 //   ended         1 once the worker has seen the end of its pipe (closed, Done or Err entry)
